@@ -509,6 +509,71 @@ func c17WSChunks(kind, dir string, shard, nshards int) vh.Unit {
 }
 
 // (4) concurrent writers on the gorilla codec (the one both shipped binaries use)
+// yieldWriter is an io.ReadWriteCloser whose every Write is a scheduling point and is recorded.
+type yieldWriter struct {
+	buf    bytes.Buffer
+	writes []int
+}
+
+func (y *yieldWriter) Read(p []byte) (int, error) { return 0, io.EOF }
+func (y *yieldWriter) Write(p []byte) (int, error) {
+	vsched.Yield("conn-write")
+	y.writes = append(y.writes, len(p))
+	return y.buf.Write(p)
+}
+func (y *yieldWriter) Close() error { return nil }
+
+// the stream codec (sockets, pipes): messages written concurrently to one connection - replies of
+// several handlers, a reply overlapping a reverse call - arrive whole, each exactly once
+func c17StreamWriters(bound int) vh.Unit {
+	name := "stream-codec/concurrent-writers"
+	return vh.Unit{Name: name, Run: func(u *vh.U) {
+		msgs := c17Msgs([]int{2, 0, 4})
+		var y *yieldWriter
+		var werr [3]error
+		body := func() {
+			y = &yieldWriter{}
+			codec := jsonrpc2.IOCodec(y)
+			vh.Par([]string{"w-big", "w-small", "w-err"},
+				func() { werr[0] = codec.WriteMessage(msgs[0]) },
+				func() { werr[1] = codec.WriteMessage(msgs[1]) },
+				func() { werr[2] = codec.WriteMessage(msgs[2]) })
+		}
+		vh.RunDFS(u, vh.DFSSpec{
+			Name: name, Bound: bound,
+			Run:  vsched.Options{YieldFiles: []string{"codecs.go"}, Delay: true},
+			Body: body,
+			Obs:  func(s *vsched.Sched) string { return fmt.Sprint(y.writes, werr) },
+			Check: func(s *vsched.Sched) (string, string) {
+				for i, e := range werr {
+					if e != nil {
+						return "stream/concurrent-write-failed", fmt.Sprintf("writer %d: %v", i, e)
+					}
+				}
+				rd := jsonrpc2.IOCodec(&chunkReader{data: y.buf.Bytes()})
+				seen := map[string]int{}
+				for i := range msgs {
+					var m *jsonrpc2.Message
+					var err error
+					if p := vh.Recover(func() { m, err = rd.ReadMessage() }); p != "" || err != nil {
+						return "stream/writers-interleaved", fmt.Sprintf("reading message %d of 3 written concurrently: %v %s (write sizes on the wire: %v)", i+1, err, p, y.writes)
+					}
+					seen[c17Norm(m)]++
+				}
+				for _, m := range msgs {
+					if seen[c17Norm(m)] != 1 {
+						return "stream/writers-interleaved", fmt.Sprintf("a written message was read %d times (write sizes %v)", seen[c17Norm(m)], y.writes)
+					}
+				}
+				if extra, err := rd.ReadMessage(); err == nil {
+					return "stream/extra-message", abbreviate(c17Norm(extra))
+				}
+				return "", ""
+			},
+		})
+	}}
+}
+
 func c17Writers(bound int) vh.Unit {
 	name := "ws-gorilla/concurrent-writers"
 	return vh.Unit{Name: name, Run: func(u *vh.U) {
@@ -614,7 +679,7 @@ func init() {
 			if tier == "thorough" {
 				bound = 3
 			}
-			us = append(us, c17Writers(bound))
+			us = append(us, c17StreamWriters(2), c17Writers(bound))
 			return us
 		},
 	})
